@@ -139,4 +139,16 @@ theorem decode_encode (m : Msg) (h : WF m) (rest : Bytes) :
     rw [decRecs_recBytes acs h]
     rfl
 
+/-! ### the run-time well-formedness test decides `WF` -/
+
+theorem wfRecBool_iff (a : AcStatusData) : wfRecBool a = true ↔ WFRec a := by
+  simp only [wfRecBool, WFRec, Bool.and_eq_true, decide_eq_true_eq, and_assoc]
+
+theorem wfBool_iff (m : Msg) : wfBool m = true ↔ WF m := by
+  cases m with
+  | request => simp [wfBool, WF]
+  | status acs =>
+    simp only [wfBool, WF, List.all_eq_true]
+    exact ⟨fun h a ha => (wfRecBool_iff a).1 (h a ha), fun h a ha => (wfRecBool_iff a).2 (h a ha)⟩
+
 end PyAirtouch.Lemmas.At5C023
